@@ -173,9 +173,20 @@ type CallResult struct {
 	Took    time.Duration
 }
 
+// DoAsync starts a call and returns its id and a channel with the result.
+func (w *TWorld) DoAsync(i int, form string, dir byte, bound time.Duration) (uint64, chan CallResult) {
+	id := w.NextID()
+	ch := make(chan CallResult, 1)
+	go func() { ch <- w.doID(id, i, form, dir, bound) }()
+	return id, ch
+}
+
 // Do performs one call of the given form to address i and waits for it (bounded).
 func (w *TWorld) Do(i int, form string, dir byte, bound time.Duration) CallResult {
-	id := w.NextID()
+	return w.doID(w.NextID(), i, form, dir, bound)
+}
+
+func (w *TWorld) doID(id uint64, i int, form string, dir byte, bound time.Duration) CallResult {
 	args := MakePayload(id, dir, uint32(id), 48)
 	var reply []byte
 	addr := w.Addrs[i]
